@@ -701,6 +701,42 @@ def rule_no_error_after_output(ctx):
     r.floor(1)
 
 
+def rule_at_index_no_wrap(ctx):
+    """container.at(i) throws std::out_of_range for a bad index and nothing in uncrustify catches it: the run ends in SIGABRT
+    without a diagnostic.  An index computed by an unsigned subtraction that can wrap is such an index"""
+    from ..bounds import Bounds
+    db = ctx.db
+    r = ctx.rule("at-index-no-wrap", "for every .at(i) on a container that is not chunk text (ParsingFrame, std::vector, std::deque, std::map) "
+                 "no unsigned subtraction inside i - followed through single-definition locals - can wrap: interval facts (uv/bounds.py) give "
+                 "lb(minuend) >= ub(subtrahend), or the call sits in a try block")
+    n_at = 0
+    for f in sorted(db.funcs.values(), key=lambda g: (g.file, g.l0)):
+        if not f.file.startswith("src/") or f.file == "src/uncrustify_emscripten.cpp":
+            continue
+        seen_keys = {}
+        for n in f.all_nodes():
+            if n["k"] != "call" or not (n.get("c") or "").endswith("::at") or not n.get("a") or "UncText" in n["c"] or "basic_string" in n["c"]:
+                continue
+            n_at += 1
+            r.seen()
+            if n.get("try"):
+                continue
+            B = Bounds(db, f, n["i"])
+            B.interval(n["a"][0])
+            bad = [(i, a, b) for i, proved, a, b in B.underflow if not proved]
+            for i, a, b in bad:
+                key = "%s/%s/%s" % (f.qn.split("::")[-1], expr_str(f, n["i"])[:40], expr_str(f, i))
+                if key in seen_keys:
+                    continue
+                seen_keys[key] = 1
+                r.fail(key, db.loc(f, n), "the index of `%s` contains `%s`, which is unsigned and can wrap (minuend %s, subtrahend %s): .at() then "
+                       "throws std::out_of_range and the run aborts" % (expr_str(f, n["i"])[:60], expr_str(f, i), a, b))
+            if not bad:
+                r.ok("%s/%s" % (f.qn.split("::")[-1], expr_str(f, n["i"])[:40]), db.loc(f, n))
+    r.require(n_at >= 80, "only %d .at() calls on containers found" % n_at)
+    r.floor(80)
+
+
 def rule_width_no_wrap(ctx):
     """uncrustify_file() repeats align/indent/do_code_width() `while (old_changes != cpd.changes)` with no bound of its own
     (debug_max_number_of_loops is off by default): the pass must stop asking for a split once nothing is too wide.  A column
@@ -763,4 +799,4 @@ def rule_width_no_wrap(ctx):
     r.floor(1)
 
 
-RULES = [rule_sentinel_divergence, rule_eof_divergence, rule_null_links_immutable, rule_sentinel_not_freed, rule_no_throw, rule_text_index, rule_bounded_copy, rule_exit_discipline, rule_no_error_after_output, rule_width_no_wrap]
+RULES = [rule_sentinel_divergence, rule_eof_divergence, rule_null_links_immutable, rule_sentinel_not_freed, rule_no_throw, rule_text_index, rule_bounded_copy, rule_exit_discipline, rule_no_error_after_output, rule_width_no_wrap, rule_at_index_no_wrap]
